@@ -1,2 +1,23 @@
-// Package c18 binds the TLA+ specification of property C18 to the Go code.
+// Package c18 binds spec/service (SignalHandler.tla, RefreshWorker.tla and
+// their generator / trace modules) to service.SignalHandler and
+// service.RefreshWorker.
+//
+// signal.go: a fake osutil.SignalNotifier captures the handler's channel; the
+// harness feeds scripted signals into it, fake services record their Shutdown
+// calls and return nil / an error / panic.  refresh.go: clock, schedule,
+// context constructor, refresher and error handler are one fake world; ticks
+// are handed over through an UNBUFFERED timer channel with non-blocking sends,
+// so a tick is delivered only while the worker is parked in its select - the
+// done-vs-pending-tick race of the select (TickBeatsDone in the spec) is
+// never provoked.  No sleeps are used for ordering; "does not happen" is
+// observed for a grace period and reported only when it did happen.
 package c18
+
+import "verifharness/internal/vh"
+
+func init() {
+	vh.Register("c18", "replay-signal", replaySignal)
+	vh.Register("c18", "record-signal", recordSignal)
+	vh.Register("c18", "replay-refresh", replayRefresh)
+	vh.Register("c18", "record-refresh", recordRefresh)
+}
